@@ -62,9 +62,12 @@ def main():
     rc0, out0 = run_demo(os.path.join(src, "demo"))
     res["demo_unchanged"] = {"rc": rc0, "tail": out0[-600:]}
     patch = os.path.join(src, "patch.diff")
-    rc, out = sh(["git", "-C", REPO, "apply", "--3way", patch])
+    rc, out = sh(["git", "-C", REPO, "apply", patch])
     if rc != 0:
-        rc, out = sh(["git", "-C", REPO, "apply", patch])
+        rc, out = sh(["git", "-C", REPO, "apply", "--3way", patch])
+        if rc != 0 or "U" in sh(["git", "-C", REPO, "status", "--porcelain"])[1][:2]:
+            rc = 1
+            sh(["git", "-C", REPO, "reset", "-q", "--hard", "HEAD"])
     res["apply"] = {"rc": rc, "out": out[-500:]}
     try:
         if rc == 0:
@@ -87,7 +90,7 @@ def main():
                 if m and os.path.exists(m.group(1)):
                     res["checks"][p]["replay_excerpt"] = open(m.group(1)).read()[:3000]
     finally:
-        sh(["git", "-C", REPO, "checkout", "--", "."])
+        sh(["git", "-C", REPO, "reset", "-q", "--hard", "HEAD"])
         sh(["git", "-C", REPO, "clean", "-fdq", "--", "."])
     rc, out = sh(["git", "-C", REPO, "status", "--porcelain"])
     assert out.strip() == "", "/repo not restored: " + out
